@@ -380,7 +380,6 @@ Lemma close_starts_datum : starts_datum 41.
 Proof. split; [reflexivity|discriminate]. Qed.
 
 Section ByteVec.
-  Variable alpha : N -> bool.
   Variable fast : bool.
   Variable std_parse : N -> Z -> f64.
 
